@@ -247,7 +247,7 @@ def _shrink_fold_case(ctx, case, described):
 BASE_TREE = {"sub": {"a": None, "item": None, "keep": {}, "n.txt": None}, "d": {"x.txt": None, "e": {"f": None}},
              "other": None}
 PATTERNS = ["sub/${*x}", "sub/*", "sub/${*x}/", "**/${*n}.txt", "${*d}/item", "d/**", "${*d}/${*x}", "sub/${*x}/*",
-            "*/", "sub/[ai]*"]
+            "*/", "sub/[ai]*", "d/**/*.txt"]
 NAMES = ["a", "b", "item", "keep", "n.txt", "new", "e"]
 
 
@@ -336,6 +336,9 @@ NAMED_TRACES = [
     ("directory-with-matches-removed", [("rmtree", "sub")]),
     ("moved-away-and-recreated", [("moveaway", "sub"), ("mkdir", "sub"), ("create", "sub/item")]),
     ("nothing-relevant", [("touch", "other")]),
+    # `**/` spans zero directories: the only changed paths lie directly in the base directory
+    ("recursive-wildcard-spans-zero-directories-created", [("create", "new.txt")]),
+    ("recursive-wildcard-spans-zero-directories-deleted", [("unlink", "d/x.txt")]),
 ]
 
 
